@@ -1,6 +1,7 @@
 """C13 Choice constraints admit exactly the documented index combinations - structural clauses."""
 import ast
 
+from ..rules.match import FnText
 from ..model import AnalysisError, norm
 from ..cfg import build_cfg
 from ..astutil import short, call_name
@@ -43,19 +44,19 @@ def relations(ctx, rule='A14'):
                    f'the valid index combinations for {m} (all permanent: {perm}) are those with earlier {w} later',
                    f'derived relation: earlier {val.get((m, perm))} later')
     # inactive (-1) entries are ignored, single-column input is unconstrained
-    txt = ' '.join(norm(s) for s in fn2.body)
+    txt = FnText(ctx, fn2)
     ok = 'active_row = row[row != -1]' in txt and 'if len(active_row) > 1' in txt
     ctx.ob(rule, fkey(fn2, rule, 'inactive-ignored'), ok, fn2.where,
            'choices that are not active together (index -1) are not constrained: rows are compared on their '
            'active entries only, and only when more than one is active', '')
-    ok = '(idx_comb[:, i] == -1) | (idx_comb[:, j] == -1)' in txt
+    ok = '(idx_comb[:, i] != idx_comb[:, j]) | (idx_comb[:, i] == -1) | (idx_comb[:, j] == -1)' in txt
     ctx.ob(rule, fkey(fn2, rule, 'permutation-inactive-ignored'), ok, fn2.where,
            'the pairwise PERMUTATION test accepts a pair when either index is inactive (-1)', '')
 
 
 def pre_removal(ctx, rule='A14p'):
     fn = ctx.fn(f'{CCON}:get_constraint_pre_removed_options')
-    txt = ' '.join(norm(s) for s in fn.body)
+    txt = FnText(ctx, fn)
     # evaluate the window arithmetic over a few (number of choices, position, number of options) triples
     from ..rules import intcmp
     assigns = {}
@@ -102,7 +103,7 @@ def pre_removal(ctx, rule='A14p'):
            'PERMUTATION: all options are removed exactly when there are more choices than the largest option '
            'count (no injective assignment exists)', '')
     f2 = ctx.fn(f'{DSG}.constrain_choices')
-    t2 = ' '.join(norm(s) for s in f2.body)
+    t2 = FnText(ctx, f2)
     ok = 'choice_nodes = self.ordered_choice_nodes(choice_nodes)' in t2
     ctx.ob(rule, fkey(f2, rule, 'choice-order-canonical'), ok, f2.where,
            'the constrained choices are stored in the canonical choice order (the order the relations refer to)', '')
@@ -113,7 +114,7 @@ def pre_removal(ctx, rule='A14p'):
     ctx.ob(rule, fkey(f2, rule, 'one-constraint-per-choice'), ok, f2.where,
            'a choice can be part of one constraint only', '')
     f3 = ctx.fn(f'{DSG}._get_removed_constrained_selection_choices')
-    t3 = ' '.join(norm(s) for s in f3.body)
+    t3 = FnText(ctx, f3)
     ok = 'get_constraint_removed_options(choice_constraint, i_dec, i_opt)' in t3 and \
         'i_opt = choice_constraint.options[i_dec].index(option_node)' in t3 and \
         'for i_dec, dec_node in enumerate(choice_constraint.nodes)' in t3
@@ -175,13 +176,13 @@ def order_flow(ctx, rule='A15'):
 
 def fast_counting(ctx, rule='A14f'):
     fn = ctx.fn(f'{FAST}._get_n_combinations')
-    txt = ' '.join(norm(s) for s in fn.body)
+    txt = FnText(ctx, fn)
     ok = 'count_n_combinations_max(choice_constraint, is_all_permanent=is_all_permanent)' in txt and \
         'n_opts[i_other] = 1' in txt
     ctx.ob(rule, fkey(fn, rule, 'fast-count-uses-relation'), ok, fn.where,
            'the fast encoder counts a constrained group through the same index-combination filter', '')
     f2 = ctx.fn(f'{CCON}:count_n_combinations_max')
-    t2 = ' '.join(norm(s) for s in f2.body)
+    t2 = FnText(ctx, f2)
     ok = 'get_valid_idx_combinations(all_idx_comb, choice_constraint.type, is_all_permanent=is_all_permanent)' in t2
     ctx.ob(rule, fkey(f2, rule, 'count-through-filter'), ok, f2.where,
            'the maximum number of combinations is the number of rows of the full index product that pass the '
